@@ -564,3 +564,16 @@ Proof.
   split; [vm_compute; reflexivity|]. split; [vm_compute; reflexivity|].
   eexists. split; [vm_compute; reflexivity|]. split; vm_compute; reflexivity.
 Qed.
+
+(* (d) EMBEDDED TREES, grammar level: the item that stands for an embedded tree (SyncML <Data> holding a DevInf / DM DDF
+   document) is ONE OPAQUE whose octets are the output of the same encoder on the embedded tree with the embedded language
+   (same version / string-table / white-space options, never anonymous: embedded_opts), and that output — when shorter
+   than 2^32 octets — is itself Spec.serialize of a strict document with its own header and string table. *)
+Theorem C06_embedded_document_is_strict_serialization : forall tbl e par lid l' tag attrs ch st items st',
+  e_ignore_empty e = e_remove_blanks e -> find_lang tbl lid = Some l' ->
+  tag_tbl_ok (enc_env l' (embedded_opts e)) = true -> frag5_node (NElt tag attrs ch) = true ->
+  abs_node5 tbl e par (NTree lid [NElt tag attrs ch]) st = Some (items, st') ->
+  exists doc, items = [Spec.WItemStr (Spec.WOpaque doc)] /\ enc_wbxml tbl l' (embedded_opts e) [NElt tag attrs ch] = EOk doc /\
+    (len doc < 4294967296 -> exists d', doc = Spec.serialize d' /\ Spec.strict_doc d' = true).
+Proof. exact embedded_tree_is_document. Qed.
+Print Assumptions C06_embedded_document_is_strict_serialization.
